@@ -232,6 +232,76 @@ def op_likebatch(js, table):
     return res
 
 
+STMT_RANK = {'JOIN': 0, 'SELECT': 1, 'ORDER BY': 2, 'WHERE': 3, 'UPDATE': 4, 'GROUP BY': 5, 'LIMIT': 6, 'EXCEPT': 7}
+
+
+def classify_parse_error(e):
+    msg = str(e)
+    m = re.search(r'More than one "(.*)" statements found', msg)
+    if m:
+        return 'err more-than-one ' + m.group(1).replace(' ', '_')
+    if 'UPDATE keyword must be at the beginning' in msg:
+        return 'err update-not-first'
+    if 'SELECT keyword must be at the beginning' in msg:
+        return 'err select-not-first'
+    if 'must contain either SELECT or UPDATE' in msg:
+        return 'err no-select-no-update'
+    if 'can not contain both SELECT and UPDATE' in msg:
+        return 'err both-select-update'
+    if 'Invalid join syntax' in msg:
+        return 'err invalid-join'
+    return 'err other ' + enc_str(msg[:60])
+
+
+def op_cleanup(t):
+    return enc_str(rbql_engine.cleanup_query(dec_str(t)))
+
+
+def op_seplit(t):
+    fe, lits = rbql_engine.separate_string_literals(dec_str(t))
+    return '%s %s' % (enc_str(fe), enc_list(lits))
+
+
+def op_combine(e, lits):
+    return enc_str(rbql_engine.combine_string_literals(dec_str(e), dec_list(lits)))
+
+
+def op_redundant(t):
+    return enc_str(rbql_engine.remove_redundant_input_table_name(dec_str(t)))
+
+
+def op_actions(t):
+    groups = [g for g in rbql_engine.default_statement_groups if g != [rbql_engine.FROM]]
+    try:
+        r = rbql_engine.separate_actions(groups, dec_str(t))
+    except rbql_engine.RbqlParsingError as e:
+        return classify_parse_error(e)
+    w = enc_str(r['WITH']) if 'WITH' in r else '~'
+    acts = []
+    for st in sorted((k for k in r if k != 'WITH'), key=lambda k: STMT_RANK.get(k, 8)):
+        p = r[st]
+        opt = lambda v: '~' if v is None else v
+        acts.append('%s:%s:%s:%s:%s:%s:%s' % (st.replace(' ', '_'), enc_str(p['text']), opt(p.get('join_subtype', None) and p['join_subtype'].replace(' ', '_')),
+                                               opt(None if 'reverse' not in p else enc_bool(p['reverse'])), opt(None if p.get('top') is None else str(p['top'])),
+                                               enc_bool(p.get('distinct', False)), enc_bool(p.get('distinct_count', False))))
+    return 'ok %s %s' % (w, ' '.join(acts))
+
+
+def op_parse(t):
+    q = rbql_engine.cleanup_query(dec_str(t))
+    fe, lits = rbql_engine.separate_string_literals(q)
+    fe = rbql_engine.remove_redundant_input_table_name(fe)
+    return '%s | %s' % (enc_list(lits), op_actions(enc_str(fe)))
+
+
+def op_joinexpr(t):
+    try:
+        tid, pairs = rbql_engine.parse_join_expression(dec_str(t))
+    except rbql_engine.RbqlParsingError as e:
+        return classify_parse_error(e)
+    return 'ok %s %s' % (enc_str(tid), ' '.join(enc_str(a) + '=' + enc_str(b) for a, b in pairs))
+
+
 def op_pyescape(q, name):
     return enc_str(rbql_engine.python_string_escape_column_name(dec_str(name), '"' if q == 'd' else "'"))
 
@@ -258,7 +328,7 @@ def op_readboth(pol, enc, hdr, modi, d, comment, text):
     return read_result(stream, encoding, pol, hdr, modi, 1024, dec_str(d), None if comment == '~' else dec_str(comment))
 
 
-OPS = {'readboth': op_readboth, 'pyescape': op_pyescape, 'pyeval': op_pyeval, 'likebatch': op_likebatch, 'write': op_write, 'roundtrip': op_roundtrip, 'split': op_split, 'quote': op_quote, 'unquote': op_unquote, 'readpy': op_readpy, 'readpyall': op_readpyall}
+OPS = {'readboth': op_readboth, 'cleanup': op_cleanup, 'seplit': op_seplit, 'combine': op_combine, 'redundant': op_redundant, 'actions': op_actions, 'joinexpr': op_joinexpr, 'parse': op_parse, 'pyescape': op_pyescape, 'pyeval': op_pyeval, 'likebatch': op_likebatch, 'write': op_write, 'roundtrip': op_roundtrip, 'split': op_split, 'quote': op_quote, 'unquote': op_unquote, 'readpy': op_readpy, 'readpyall': op_readpyall}
 
 
 RAW_OPS = {}   # ops whose single argument is the rest of the line (JSON payloads)
